@@ -335,6 +335,8 @@ def run(ctx):
              # a sampler whose dtype differs from tile to tile
              dict(entry="sample_layer", cs="astronomical", depth=2, fmt="fits", kind="mixed", mode="clobber", regions=None, accept=None, par=1),
              dict(entry="filtered", cs="planetary", depth=2, fmt="fits", kind="mixed", mode="update", regions=None, accept=None, par="sim2"),
+             # colour samples into a bottom-up format (the row reversal acts on the row axis of a (rows, columns, planes) array)
+             dict(entry="sample_layer", cs="astronomical", depth=1, fmt="fits", kind="rgb", mode="clobber", regions=None, accept=None, par=1),
              # samplers that memoise: the arrays they return stay theirs (second pyramid from the same sampler objects)
              dict(entry="sample_layer", cs="astronomical", depth=1, fmt="fits", kind="scalar", mode="clobber", regions=None, accept=None, par=1, memo=True),
              dict(entry="filtered", cs="planetary", depth=1, fmt="fits", kind="scalar", mode="update", regions=[(0, B), (B, 7.0)], accept=None, par=1, memo=True),
